@@ -476,6 +476,7 @@ var c13ScDefects = []scDefect{
 	{"mapping-randint-three-arguments", map[string]string{"mapping": "randInt(1, 2, 3)"}, nil, false},
 	{"mapping-randstring-negative-length", map[string]string{"mapping": "randString(-5)"}, nil, false},
 	{"mapping-randstring-zero-length", map[string]string{"mapping": "randString(0, ab)"}, nil, false},
+	{"mapping-randstring-absurd-length", map[string]string{"mapping": "randString(4611686018427387904)"}, nil, false},
 	{"mapping-unknown-function", map[string]string{"mapping": "randFloat(1)"}, nil, false},
 	{"mapping-function-unclosed", map[string]string{"mapping": "randInt(1, 2"}, nil, false},
 }
